@@ -12,6 +12,7 @@ import sys
 
 from mc import framework as fw
 from mc import rgfa
+from mc import gen
 
 ID = "C14"
 LEVEL = "exploration"
@@ -294,11 +295,48 @@ def run_shard(spec, tier, scratch):
                     check_find_path(res, scratch, g, g.text(), list(plist), fasta)
                     res.count("path_files_with_repeats" if len(set(plist)) < len(plist) else "path_files_distinct")
         cli_binding(res, scratch)
+        long_nodes(res, scratch)
     return res
+
+
+def long_nodes(res, scratch):
+    """nodes around and beyond 2^15 and 2^16 bases, partly soft-masked, spelled forward and reverse (a size threshold in a
+    helper must not change the result)"""
+    from gaftools.gfa import GFA
+
+    for n in (32_767, 32_768, 40_000, 65_536, 70_001):
+        seq = gen._seq(n, n % 13)
+        seq = seq[: n // 3] + seq[n // 3 : n // 3 + 500].lower() + seq[n // 3 + 500 :]
+        g = rgfa.Graph()
+        g.add_seg("big", seq, [])
+        g.add_seg("s2", "ACg", [])
+        g.add_link("big", "+", "s2", "+", "0M")
+        path = os.path.join(scratch, "long.gfa")
+        fw.write_text(path, g.text())
+        out = fw.guarded(GFA, path)
+        res.evaluations += 1
+        res.count("long_node_graphs")
+        short = {"mode": "long-node", "gfa": f"(one node of {n} bases with 500 soft-masked bases, linked to ACg)", "n": n}
+        if out.kind != "ok":
+            res.fail(f"C14/load:{out.sig()}", f"node of {n} bases: {out.brief()}", short)
+            continue
+        for p in (">big", "<big", ">big>s2", "<s2<big", "<big>s2"):
+            steps = rgfa.parse_steps(p)
+            expect = g.spell(steps) if g.is_walk(steps) else ""
+            o = fw.guarded(out.value.extract_path, p)
+            res.nt(fw.h64(["long", n, p]))
+            if o.kind != "ok":
+                res.fail(f"C14/exception:{o.sig()}", f"node of {n} bases, extract_path({p}): {o.brief()}", dict(short, path=p))
+            elif o.value != expect:
+                k = next((i for i, (a, b) in enumerate(zip(o.value, expect)) if a != b), min(len(o.value), len(expect)))
+                res.fail("C14/wrong-sequence-long-node", f"node of {n} bases, extract_path({p}): {len(o.value)} bases returned, {len(expect)} expected; first difference at base {k}: {o.value[k:k+8]!r} vs {expect[k:k+8]!r}", dict(short, path=p))
 
 
 def replay(case, scratch):
     res = fw.ShardResult()
+    if case["mode"] == "long-node":
+        long_nodes(res, scratch)
+        return [f for f in res.failures if f["case"].get("n") == case.get("n") and f["case"].get("path") == case.get("path")] or res.failures
     g = rgfa.Graph.parse(case["gfa"])
     if case["mode"] in ("extract", "load"):
         from gaftools.gfa import GFA
